@@ -303,6 +303,26 @@ def run_case(case):
                 res.fail("composition_logdet", type(b.module).__name__, "%s log-det %s differs from sum over leaves %s" % (d, lgot.tolist(), lref.tolist()),
                          direction=d, ctx=ctxk is not None)
                 return res
+        # wrappers are stateless: the same call repeated on the same object (other calls in between) gives the same result
+        same = lambda u, v: u.shape == v.shape and bool(torch.allclose(u, v, rtol=0, atol=0, equal_nan=True))  # noqa
+        with torch.no_grad():
+            try:
+                f1, i1 = b.module(x, ctx), b.module.inverse(x, ctx)
+                x2 = torch.randn(rows + 1, D, generator=g)
+                c2 = torch.randn(rows + 1, ctxk, generator=g) if ctxk else None
+                b.module.inverse(x2, c2)
+                b.module(x2, c2)
+                f2, i2 = b.module(x, ctx), b.module.inverse(x, ctx)
+                if not (same(f1[0], f2[0]) and same(f1[1], f2[1])):
+                    res.fail("wrapper_not_stateless", type(b.module).__name__, "forward repeated on the same wrapper object gives a different result", direction="forward")
+                    return res
+                if not (same(i1[0], i2[0]) and same(i1[1], i2[1])):
+                    res.fail("wrapper_not_stateless", type(b.module).__name__, "inverse repeated on the same wrapper object gives a different result "
+                             "(max diff %g)" % float((i1[0] - i2[0]).abs().nan_to_num().max()), direction="inverse")
+                    return res
+            except Exception as e:
+                if type(e).__name__ != "InputOutsideDomain":
+                    raise
         # InverseTransform swaps the two directions exactly (bitwise)
         if tree["t"] == "inverse":
             inner = b.parts[0].module
